@@ -152,6 +152,10 @@ class Interp:
         self.ob_counter: Dict[str, int] = {}
         self.ghost: Dict[str, object] = {}
         self.ghost_names: Dict[str, int] = {}
+        from .seq import PipeTable
+        self.pipes = PipeTable(self)
+        self.pointwise = 0
+        self.merge_ifs = 0
         SObj._next[0] = 0
 
     def fresh(self, base, sort='int'):
@@ -192,6 +196,8 @@ class Interp:
 
     def fork(self, conds: list, label='') -> int:
         """Choose one of mutually exclusive, jointly exhaustive alternatives; returns its index."""
+        if self.pointwise:
+            raise Unsupported('path fork inside a pointwise (per-element) evaluation')
         # the k-th fork under a given decision prefix is the same fork in every re-execution: cache its feasible set
         key = (tuple(self.decisions[:self.dpos]), self.forks_since, len(conds))
         self.forks_since += 1
@@ -236,6 +242,23 @@ class Interp:
         elif goal is False:
             goal = z3.BoolVal(False)
         self.obligations.append(Obligation(oid, kind, self.pc, zbool(goal), self.cur_line, self.cur_func, note))
+
+    def oblige_with(self, hyps, kind, label, goal, note=''):
+        saved = list(self.pc)
+        for h in hyps:
+            if h is not True:
+                self.pc.append(zbool(h))
+        try:
+            self.oblige(kind, label, goal, note)
+        finally:
+            self.pc = saved
+
+    def compare_len_positive(self, v):
+        if isinstance(v, str):
+            return len(v) > 0
+        if isinstance(v, SStr):
+            return simp(zint(str_len(v)) > 0)
+        raise Unsupported('length of a non-string element')
 
     def raise_py(self, name, value=None):
         bases = BUILTIN_EXCEPTIONS.get(name, [name, 'Exception', 'BaseException'])
@@ -319,7 +342,7 @@ class Interp:
             return True
         from .seq import SSeq
         if isinstance(v, SSeq):
-            return simp(v.length > 0)
+            return self.pipes.observable(v, 'ne')
         if getattr(v, '_pyvc_native', False):
             return True
         raise Unsupported(f'truthiness of {type(v).__name__}')
@@ -469,10 +492,52 @@ class Interp:
         env.vars[st.name] = Closure(st, env, env.module, env.cls, st.name)
 
     def st_If(self, st, env):
+        if self.merge_ifs or self.pointwise:
+            t = self.truth(self.ev(st.test, env))
+            if not isinstance(t, bool):
+                t = simp(zbool(t))
+            if not isinstance(t, bool):
+                return self.merged_if(st, t, env)
+            self.exec_block(st.body if t else st.orelse, env)
+            return
         if self.is_true(self.ev(st.test, env)):
             self.exec_block(st.body, env)
         else:
             self.exec_block(st.orelse, env)
+
+    def merged_if(self, st, cond, env):
+        """if/else executed on both sides and merged with ite (used inside per-element loop bodies: no forks)"""
+        base = dict(env.vars)
+        nw = len(self.writes)
+        self.exec_block(st.body, env)
+        then_vars = dict(env.vars)
+        env.vars.clear()
+        env.vars.update(base)
+        self.exec_block(st.orelse, env)
+        else_vars = dict(env.vars)
+        if len(self.writes) != nw:
+            raise Unsupported('heap write inside a merged branch')
+        merged = {}
+        for k in set(then_vars) | set(else_vars):
+            if k not in then_vars or k not in else_vars:
+                # defined on one side only: kept (reading it after the other side was taken would be an UnboundLocalError)
+                merged[k] = then_vars.get(k, else_vars.get(k))
+                continue
+            a, b = then_vars[k], else_vars[k]
+            merged[k] = a if a is b else self.ite_value(cond, a, b)
+        env.vars.clear()
+        env.vars.update(merged)
+
+    def ite_value(self, c, a, b):
+        if isinstance(a, (str, SStr)) and isinstance(b, (str, SStr)):
+            return SStr([('sym', z3.If(c, to_z3_string(a), to_z3_string(b)))])
+        if (isinstance(a, bool) or is_bool_sym(a)) and (isinstance(b, bool) or is_bool_sym(b)):
+            return simp(z3.If(c, zbool(a), zbool(b)))
+        if _intlike(a) and _intlike(b):
+            return simp(z3.If(c, zint(a), zint(b)))
+        if isinstance(a, (EnumVal, SEnum)) and isinstance(b, (EnumVal, SEnum)) and a.cls.qualname == b.cls.qualname:
+            return SEnum(a.cls, simp(z3.If(c, zint(self.enum_code(a)), zint(self.enum_code(b)))))
+        raise Unsupported(f'cannot merge {type(a).__name__} and {type(b).__name__}')
 
     def st_Raise(self, st, env):
         if st.exc is None:
@@ -784,6 +849,14 @@ class Interp:
         raise Unsupported(f'str() of {type(x).__name__}')
 
     def ex_IfExp(self, node, env):
+        if self.pointwise:
+            t = self.truth(self.ev(node.test, env))
+            if not isinstance(t, bool):
+                t = simp(zbool(t))
+            if not isinstance(t, bool):
+                a, b = self.ev(node.body, env), self.ev(node.orelse, env)
+                return a if a is b else self.ite_value(t, a, b)
+            return self.ev(node.body if t else node.orelse, env)
         if self.is_true(self.ev(node.test, env)):
             return self.ev(node.body, env)
         return self.ev(node.orelse, env)
@@ -795,6 +868,21 @@ class Interp:
             v = self.ev(e, env)
             if i == len(node.values) - 1:
                 return v
+            if self.pointwise:
+                t = self.truth(v)
+                if not isinstance(t, bool):
+                    # per-element evaluation must not fork: the remaining operands are evaluated (they are pure) and
+                    # combined as truth values
+                    acc = t
+                    for e2 in node.values[i + 1:]:
+                        t2 = self.truth(self.ev(e2, env))
+                        acc = _and(acc, t2) if is_and else _or(acc, t2)
+                    return acc
+                if is_and and not t:
+                    return v
+                if not is_and and t:
+                    return v
+                continue
             t = self.is_true(v)
             if is_and and not t:
                 return v
